@@ -138,13 +138,12 @@ def zero_value(zspec):
 
 
 def exact_class(*dicts):
-  """True when every coefficient is an int or a dyadic float (the generated
-  source then computes exactly); Fractions are formatted as a/b and divide in
-  floats."""
+  """True when every coefficient is an int, a Fraction or a dyadic float: the
+  generated source then computes exactly on exact (symbolic) samples.
+  (Fractions used to be written into that source as "p/q", a float division:
+  finding F30.)"""
   for d in dicts:
     for v in d.values():
-      if isinstance(v, Fraction):
-        return False
       if isinstance(v, float) and Fraction(v).denominator > 4096:
         return False
   return True
@@ -407,6 +406,13 @@ def run_case(ctx, case):
       isinstance(v, float) for v in list(raw_num.values()) +
       list(raw_den.values())):
     exact = False    # Python's float * Fraction is a (rounded) float
+  coeffs_all = list(raw_num.values()) + list(raw_den.values())
+  if zspec != "Z" and any(isinstance(v, float) for v in coeffs_all) and any(
+      isinstance(v, Fraction) for v in coeffs_all):
+    # a numeric zero value meets both a float and a Fraction coefficient:
+    # Python combines the two products (or divides by a Fraction gain) in
+    # floats
+    exact = False
   numeric_recursion_start = (zspec != "Z" and mkind == "none" and
                              len(raw_den) > 1)
   if samples != "sym" or numeric_recursion_start:
